@@ -221,6 +221,7 @@ type Outcome struct {
 	AliveAtClose   []string          `json:"alive_at_close,omitempty"`
 	CtxDoneAtEnd   bool              `json:"ctx_done_at_end,omitempty"`
 	ParkedAtCancel map[string]int    `json:"-"`
+	ContractStats  [4]int            `json:"-"`
 }
 
 func (o *Outcome) Failed() bool { return !o.Created || o.Err != "" || o.ClientPanic != "" }
